@@ -34,7 +34,7 @@ def preload():
 
 
 class NodeHandle(object):
-    def __init__(self, repo=None, mode="fork", timeout=30.0):
+    def __init__(self, repo=None, mode="fork", timeout=120.0):
         self.repo = repo or repo_root()
         self.mode = mode
         self.timeout = timeout
